@@ -23,6 +23,20 @@ PROPS = {
     },
 }
 
+PROPS["C01"] = {
+    "kind": "harness", "test": "TestC01", "level": "exploration",
+    "tiers": tiers(150, 4, 1500, 16),
+    "rule": "rapid-generated histories of 5-60 valid CREATE TABLE / INSERT (single, multi-row, with column lists, direct values incl. negative ints, bytes, NULL) / "
+            "UPDATE / DELETE statements over 1-12 tables, executed as SQL text through Session.ExecQuery (direct statement values through engine.Evaluate*), "
+            "with generated flushes; after every k-th statement and at the end SELECT * of each table is compared as a sequence with the reference model, "
+            "row ids must be stable, strictly increasing and never reused, and sys_schema / sys_pages must equal the declared schemas. "
+            "Non-trivial: an UPDATE/DELETE on a table that later goes through >=1 more leaf split, or >=2 switches between tables among the inserts, or >=7 tables (sys_pages split); distinct by case JSON.",
+    "technique": "stateful property-based testing (rapid) against an in-memory reference model",
+    "level_text": "Model-based random search over statement histories biased to cross the structural thresholds (9-cell leaves, catalog splits, multi-level trees in the thorough tier). Finds lost/duplicated/resurrected/leaked rows and catalog drift on the explored histories; it cannot show their absence in general.",
+    "level_note": "Trusted: the reference model (harness/model) and the comparison code. The flush timer is replaced by generated explicit flushes (hook VerifNoTimer); concurrency is C13's business.",
+    "assumptions": ["WHERE clauses only over NULL-free columns with well-typed operands", "no DML on the catalog tables", "column lists name existing, distinct columns"],
+}
+
 HOOK_COMMITS = ["7ca683e"]
 
 NOT_APPLICABLE = {}
